@@ -20,12 +20,13 @@ theorem Pres.callPure (name : String) (args : List (String × RVal)) (d : Option
   · exact callPure_groupC name args d pos m h hC ha
   by_cases hD : name ∈ groupD
   · exact callPure_groupD name args d pos m h hD ha
-  exfalso
+  -- a name in none of the groups: `callPure` hands over to `callDate` (`date`, `int`, `decimal` of a date)
+  refine Pres.callDate name args pos m ?_
   unfold Ckl.callPure at h
   split at h
   all_goals first
-    | (cases h; done)
-    | (simp only [groupA, groupB, groupC, groupD, List.mem_cons, List.mem_nil_iff, String.reduceEq, or_false,
+    | (exact h)
+    | (exfalso; simp only [groupA, groupB, groupC, groupD, List.mem_cons, List.mem_nil_iff, String.reduceEq, or_false,
         or_true, not_true_eq_false] at hA hB hC hD)
 
 macro_rules
